@@ -2497,6 +2497,89 @@ def e2e_schedule(ctx):
         client_wms.WMSClient.retrieve = orig_retrieve
 
 
+def e2e_meta_span(ctx):
+    """Deterministic probe: a map that is exactly a block of whole meta tiles (two / three side by side, one above the
+    other, 2 x 2) on an empty cache.  TileManager._load_tile_coords gets the created tiles back meta tile after meta
+    tile while the request lists its tiles row by row over the whole map; every created tile has to end up in the cell
+    of its own coordinate.  Checked on the first answer (cache being filled), on the second answer (from the cache) and
+    through a second cache built on top of the first (which stores what the first answer showed)."""
+    import mapproxy.client.http as http
+    up = Upstream()
+    orig_open = http.HTTPClient.open
+    http.HTTPClient.open = lambda self, url, data=None, method=None: up.open(url, data, method)
+    tw = th = 64
+    res = [8.0, 4.0, 2.0, 1.0]
+    gbbox = [0.0, 0.0, 2048.0, 2048.0]
+    try:
+        for origin in ('ll', 'ul'):
+            for ms, buf in (([2, 2], 0), ([1, 2], 0), ([3, 2], 0), ([2, 3], 16)):
+                for blocks, at in (((2, 1), (2, 1)), ((3, 1), (0, 2)), ((1, 2), (2, 0)), ((2, 2), (1, 1))):
+                    for cascade in (False, True):
+                        if cascade and (blocks != (2, 1) or buf):
+                            continue
+                        level = 2
+                        r = res[level]
+                        mw, mh = ms[0] * tw * r, ms[1] * th * r
+                        # meta tiles are aligned to the tile numbering of the grid origin
+                        x0 = at[0] * mw
+                        if origin == 'll':
+                            y0 = at[1] * mh
+                        else:
+                            y0 = gbbox[3] - (at[1] + blocks[1]) * mh
+                        bbox = (x0, y0, x0 + blocks[0] * mw, y0 + blocks[1] * mh)
+                        size = (int(blocks[0] * ms[0] * tw), int(blocks[1] * ms[1] * th))
+                        grid = {'srs': 'EPSG:3857', 'bbox': gbbox, 'tile_size': [tw, th], 'res': res, 'origin': origin}
+                        conf = {
+                            'services': {'wms': {'srs': ['EPSG:3857'], 'image_formats': ['image/png'], 'md': {'title': 't'}}},
+                            'layers': [{'name': 'lyr', 'title': 'lyr', 'sources': ['c1']}],
+                            'caches': {'c1': {'grids': ['g1'], 'sources': ['src'], 'format': 'image/png', 'meta_size': ms, 'meta_buffer': buf}},
+                            'sources': {'src': {'type': 'wms', 'req': {'url': 'http://up/wms', 'layers': 'a'}}},
+                            'grids': {'g1': grid},
+                        }
+                        if cascade:
+                            # one tile of the upper cache is the whole block of meta tiles of the lower cache
+                            g2 = dict(grid, tile_size=[size[0], size[1]], res=[2 * r, r])
+                            conf['grids']['g2'] = g2
+                            conf['caches']['c2'] = {'grids': ['g2'], 'sources': ['c1'], 'format': 'image/png', 'meta_size': [1, 1], 'meta_buffer': 0}
+                            conf['layers'][0]['sources'] = ['c2']
+                        try:
+                            app, d = build_app(ctx, conf)
+                        except Exception as e:  # noqa
+                            ctx.fail('e2e:config', 'make_wsgi_app failed for a valid configuration: %r' % (e,), {'conf': conf})
+                            continue
+                        url = wms_url('1.1.1', 'lyr', bbox, size, 'EPSG:3857', False)
+                        up.cell = r / 2.0
+                        up.requests = []
+                        rep = {'conf': conf, 'request': url, 'bbox': bbox, 'size': size, 'history': 'empty cache; the map is exactly %d x %d whole meta tiles of %d x %d tiles'
+                               % (blocks[0], blocks[1], ms[0], ms[1]), 'level': level}
+                        ctx.case(('meta-span', origin, tuple(ms), buf, blocks, cascade), True,
+                                 {'config': 'map = block of whole meta tiles', 'request': url} if (origin == 'll' and ms == [2, 2] and blocks == (2, 1) and not cascade) else None)
+                        ctx.count('meta_span:cascade' if cascade else 'meta_span:cache')
+                        try:
+                            resp = app.get(url, expect_errors=True)
+                        except Exception as e:  # noqa
+                            ctx.fail('e2e:exception', 'request raised %r' % (e,), rep)
+                            continue
+                        if resp.status_int != 200 or not resp.content_type.startswith('image/'):
+                            ctx.fail('e2e:error-response', 'status %s %s' % (resp.status, resp.content_type), rep)
+                            continue
+                        maps = [q for q in up.requests if q['kind'] == 'getmap']
+                        rep['upstream'] = [q['url'] for q in maps][:6]
+                        if len(maps) != blocks[0] * blocks[1]:
+                            ctx.fail('meta_span:upstream-count', '%d upstream requests for a map of %d whole meta tiles' % (len(maps), blocks[0] * blocks[1]), rep)
+                        # buffered meta tiles at the grid border are clipped: one more truncation stage
+                        stages = (1 if buf else 0) + (2 if cascade else 0)
+                        pixel_oracle(ctx, up, resp.body, bbox, size, r, gbbox, None, rep, 'meta_span:first-answer', tol_px=1.5, stages=stages)
+                        n0 = len(up.requests)
+                        resp2 = app.get(url, expect_errors=True)
+                        if resp2.status_int == 200:
+                            pixel_oracle(ctx, up, resp2.body, bbox, size, r, gbbox, None, dict(rep, request_number=2), 'meta_span:cached-answer', tol_px=1.5, stages=stages)
+                        if len(up.requests) != n0:
+                            ctx.fail('meta_span:refetch', 'second identical request went upstream again', rep)
+    finally:
+        http.HTTPClient.open = orig_open
+
+
 def replay_corpus(ctx):
     """minimised witnesses (corpus/C01/*.json) are replayed first"""
     import mapproxy.client.http as http
@@ -2556,7 +2639,8 @@ def run(ctx):
                     ('featureinfo_transformed', lambda: e2e_featureinfo_transformed(ctx)),
                     ('srs_extent', lambda: e2e_srs_extent(ctx, T)),
                     ('reprojected', lambda: e2e_reprojected(ctx)),
-                    ('deep_levels', lambda: e2e_deep_levels(ctx)), ('schedule', lambda: e2e_schedule(ctx))]:
+                    ('deep_levels', lambda: e2e_deep_levels(ctx)), ('schedule', lambda: e2e_schedule(ctx)),
+                    ('meta_span', lambda: e2e_meta_span(ctx))]:
         try:
             f()
         except Exception as e:  # noqa
